@@ -169,9 +169,9 @@ func H_Cancel() {
 	now := nd.Time("now")
 	e := env.New(now)
 	setParams(e, "p.")
-	sp := pickSpec("a.", 0)
+	sp := pickSpec("a.", tid())
 	st := buildAuction(e, "a.", sp)
-	setAuctionSeq(e, 1)
+	setAuctionSeq(e, tid()+1)
 	// a message arrives after the block hook ran with the same block time: a waiting auction has not reached its start
 	if sp.status == types.AuctionStatusStandBy {
 		nd.Assume(st.base.StartTime.After(now))
@@ -186,12 +186,12 @@ func H_Cancel() {
 	case 3:
 		signer = userUpper(0) // the auctioneer's account, spelled in upper case
 	}
-	id := uint64(0)
+	id := tid()
 	exists := nd.Pick("m.exists", 2) == 1
 	if !exists {
 		id = 7
 	}
-	pre := snapshot(e, trackedAccounts(0))
+	pre := snapshot(e, trackedAccounts(tid()))
 	preA := st.auction()
 	msg := types.NewMsgCancelAuction(signer, id)
 	vErr := msg.ValidateBasic()
@@ -204,8 +204,8 @@ func H_Cancel() {
 	// C12 states "only": acceptance implies auctioneer and waiting (exactness of acceptance is C18's clause)
 	nd.Assert("C12.cancel-accepted-only-by-auctioneer-while-waiting", !accepted || ref)
 	nd.Assert("C18.cancel-accepted-iff-documented-preconditions", accepted == ref)
-	post := snapshot(e, trackedAccounts(0))
-	a := getAuction(e, 0)
+	post := snapshot(e, trackedAccounts(tid()))
+	a := getAuction(e, tid())
 	if accepted {
 		au := addr(st.base.Auctioneer)
 		nd.Assert("C12.cancel-refunds-whole-escrow", post.get(au, denomSell).EQ(pre.get(au, denomSell).Add(pre.get(st.sellingAddr(), denomSell))))
@@ -226,7 +226,7 @@ func H_Cancel() {
 	}
 	nd.Assert("C02.cancel-zero-sum", post.total(denomSell).EQ(pre.total(denomSell)))
 	nd.Observe("accepted", accepted)
-	assertRI(e, 0, "RI.cancel")
+	assertRI(e, tid(), "RI.cancel")
 }
 
 // H_PlaceBid: MsgPlaceBid of every bid type against an auction of every type
@@ -236,14 +236,14 @@ func H_PlaceBid() {
 	now := nd.Time("now")
 	e := env.New(now)
 	params := setParams(e, "p.")
-	sp := pickSpec("a.", 0)
+	sp := pickSpec("a.", tid())
 	sp.allowAll = false
 	sp.nUsers = 1
 	if sp.nBids > 1 {
 		sp.nBids = 1
 	}
 	st := buildAuction(e, "a.", sp)
-	setAuctionSeq(e, 1)
+	setAuctionSeq(e, tid()+1)
 	if sp.status == types.AuctionStatusStandBy {
 		nd.Assume(st.base.StartTime.After(now))
 	}
@@ -264,16 +264,16 @@ func H_PlaceBid() {
 	price := anyDec("m.price")
 	amt := anyInt("m.amt")
 	exists := nd.Pick("m.exists", 2) == 1
-	id := uint64(0)
+	id := tid()
 	if !exists {
 		id = 7
 	}
 	balFee, balPay := nonnegInt("bal.fee"), nonnegInt("bal.pay")
 	e.SetBal(addr(bidder), denomFee, balFee)
 	e.SetBal(addr(bidder), denomPay, balPay)
-	pre := snapshot(e, trackedAccounts(0))
+	pre := snapshot(e, trackedAccounts(tid()))
 	preA := st.auction()
-	preBids := bidsOf(e, 0)
+	preBids := bidsOf(e, tid())
 
 	msg := types.NewMsgPlaceBid(id, msgBidder, bidType, price, sdk.Coin{Denom: msgDenom, Amount: amt})
 	vErr := msg.ValidateBasic()
@@ -326,9 +326,9 @@ func H_PlaceBid() {
 	nd.Assert("C10.bid-accepted-only-if-allow-listed", !accepted || listed)
 	nd.Observe("accepted", accepted)
 
-	post := snapshot(e, trackedAccounts(0))
+	post := snapshot(e, trackedAccounts(tid()))
 	nd.Assert("C02.bid-zero-sum", nd.And(post.total(denomPay).EQ(pre.total(denomPay)), post.total(denomFee).EQ(pre.total(denomFee)), post.total(denomSell).EQ(pre.total(denomSell))))
-	postBids := bidsOf(e, 0)
+	postBids := bidsOf(e, tid())
 	for i, b := range preBids {
 		// earlier bids are never removed or altered
 		ok := i < len(postBids)
@@ -342,13 +342,13 @@ func H_PlaceBid() {
 		return
 	}
 	nd.Cover("bid-accepted")
-	a := getAuction(e, 0)
+	a := getAuction(e, tid())
 	assertTermsUnchanged("C19.bid-terms", preA, a, sp.nEnd)
 	nd.Assert("C08.bid-status-unchanged", a.GetStatus() == sp.status)
 	nd.Assert("C19.bid-gets-next-id", len(postBids) == len(preBids)+1)
 	if len(postBids) == len(preBids)+1 {
 		rec := postBids[len(postBids)-1]
-		nd.Assert("C19.bid-id-increasing", rec.Id == uint64(len(preBids)+1) && rec.AuctionId == 0)
+		nd.Assert("C19.bid-id-increasing", rec.Id == uint64(len(preBids)+1) && rec.AuctionId == tid())
 		// RI R6: the stored bidder string is the canonical spelling of the account, whatever spelling the message used
 		nd.Assert("C10.bid-bidder-stored-canonically", rec.Bidder == bidder)
 		nd.Assert("C18.bid-record-terms", nd.And(addr(rec.Bidder).Equals(addr(bidder)), rec.Type == bidType, rec.Price.Equal(price), rec.Coin.Denom == msgDenom, rec.Coin.Amount.Equal(amt)))
@@ -360,7 +360,7 @@ func H_PlaceBid() {
 		post.get(bd, denomPay).EQ(pre.get(bd, denomPay).Sub(wantPay)),
 		post.get(poolAddr(), denomFee).EQ(pre.get(poolAddr(), denomFee).Add(fee))))
 	nd.Assert("C01.bid-paying-escrow-grows-by-reservation", post.get(st.payingAddr(), denomPay).EQ(pre.get(st.payingAddr(), denomPay).Add(wantPay)))
-	os, op, ov := owed(e, 0)
+	os, op, ov := owed(e, tid())
 	nd.Assert("C01.bid-escrows-exact", nd.And(
 		post.get(st.sellingAddr(), denomSell).EQ(os.Add(nd.ZInt(st.donS))),
 		post.get(st.payingAddr(), denomPay).EQ(op.Add(nd.ZInt(st.donP))),
@@ -368,7 +368,7 @@ func H_PlaceBid() {
 	if fa, ok := a.(*types.FixedPriceAuction); ok {
 		nd.Assert("C06.bid-remainder-exact", nd.ZInt(fa.RemainingSellingCoin.Amount).EQ(nd.ZInt(st.offered()).Sub(st.sold).Sub(wantSell)))
 	}
-	assertRI(e, 0, "RI.bid")
+	assertRI(e, tid(), "RI.bid")
 }
 
 // H_ModifyBid: MsgModifyBid for every signer, bid, auction type/status and new terms.
@@ -376,11 +376,11 @@ func H_ModifyBid() {
 	now := nd.Time("now")
 	e := env.New(now)
 	setParams(e, "p.")
-	sp := pickSpec("a.", 0)
+	sp := pickSpec("a.", tid())
 	sp.nUsers = 2
 	sp.allowAll = true
 	st := buildAuction(e, "a.", sp)
-	setAuctionSeq(e, 1)
+	setAuctionSeq(e, tid()+1)
 	if sp.status == types.AuctionStatusStandBy {
 		nd.Assume(st.base.StartTime.After(now))
 	}
@@ -407,11 +407,11 @@ func H_ModifyBid() {
 	amt := anyInt("m.amt")
 	balPay := nonnegInt("bal.pay")
 	e.SetBal(addr(signer), denomPay, balPay)
-	pre := snapshot(e, trackedAccounts(0))
+	pre := snapshot(e, trackedAccounts(tid()))
 	preA := st.auction()
-	preBids := bidsOf(e, 0)
+	preBids := bidsOf(e, tid())
 
-	msg := types.NewMsgModifyBid(0, msgSigner, bidId, price, sdk.Coin{Denom: msgDenom, Amount: amt})
+	msg := types.NewMsgModifyBid(tid(), msgSigner, bidId, price, sdk.Coin{Denom: msgDenom, Amount: amt})
 	vErr := msg.ValidateBasic()
 	var err error
 	if vErr == nil {
@@ -437,8 +437,8 @@ func H_ModifyBid() {
 	nd.Assert("C08.modify-accepted-only-while-open", !accepted || sp.status == types.AuctionStatusStarted)
 	nd.Observe("accepted", accepted)
 
-	post := snapshot(e, trackedAccounts(0))
-	postBids := bidsOf(e, 0)
+	post := snapshot(e, trackedAccounts(tid()))
+	postBids := bidsOf(e, tid())
 	nd.Assert("C11.modify-no-bid-removed", len(postBids) == len(preBids))
 	nd.Assert("C02.modify-zero-sum", post.total(denomPay).EQ(pre.total(denomPay)))
 	if len(postBids) != len(preBids) {
@@ -460,15 +460,15 @@ func H_ModifyBid() {
 		nd.Assert("C11.modify-charges-exact-difference", nd.And(delta.GE(nd.ZOf(0)),
 			post.get(sg, denomPay).EQ(pre.get(sg, denomPay).Sub(delta)),
 			post.get(st.payingAddr(), denomPay).EQ(pre.get(st.payingAddr(), denomPay).Add(delta))))
-		os, op, ov := owed(e, 0)
+		os, op, ov := owed(e, tid())
 		nd.Assert("C01.modify-escrows-exact", nd.And(
 			post.get(st.sellingAddr(), denomSell).EQ(os.Add(nd.ZInt(st.donS))),
 			post.get(st.payingAddr(), denomPay).EQ(op.Add(nd.ZInt(st.donP))),
 			post.get(st.vestingAddr(), denomPay).EQ(ov.Add(nd.ZInt(st.donV)))))
-		a := getAuction(e, 0)
+		a := getAuction(e, tid())
 		assertTermsUnchanged("C19.modify-terms", preA, a, sp.nEnd)
 		nd.Assert("C08.modify-status-unchanged", a.GetStatus() == sp.status)
-		assertRI(e, 0, "RI.modify")
+		assertRI(e, tid(), "RI.modify")
 	} else {
 		nd.Cover("modify-rejected")
 	}
@@ -480,14 +480,14 @@ func H_Allowed() {
 	now := nd.Time("now")
 	e := env.New(now)
 	setParams(e, "p.")
-	sp := pickSpec("a.", 0)
+	sp := pickSpec("a.", tid())
 	sp.allowAll = false
 	sp.nUsers = 1
 	sp.nBids = 0
 	st := buildAuction(e, "a.", sp)
-	setAuctionSeq(e, 1)
+	setAuctionSeq(e, tid()+1)
 	exists := nd.Pick("m.exists", 2) == 1
-	id := uint64(0)
+	id := tid()
 	if !exists {
 		id = 7
 	}
@@ -557,7 +557,7 @@ func H_Allowed() {
 			err = vErr
 		}
 		nd.Assert("C10.message-for-listed-account-refused-unless-switch-on", nd.Implies(err == nil, sw))
-		ab, gerr := e.K.AllowedBidder.Get(e.Ctx, collections.Join(uint64(0), addr(user(1))))
+		ab, gerr := e.K.AllowedBidder.Get(e.Ctx, collections.Join(tid(), addr(user(1))))
 		nd.Assert("C10.message-cannot-create-entry-with-switch-off", nd.Or(sw, (gerr == nil) == preListed1))
 		if gerr == nil && preListed1 {
 			nd.Assert("C10.message-cannot-change-entry-with-switch-off", nd.Or(sw, ab.MaxBidAmount.Equal(preCap1)))
@@ -567,12 +567,12 @@ func H_Allowed() {
 		}
 	}
 	// frame: the auction record and user 1's entry are untouched unless targeted
-	a := getAuction(e, 0)
+	a := getAuction(e, tid())
 	assertTermsUnchanged("C19.allowed-terms", preA, a, sp.nEnd)
 	nd.Assert("C19.allowed-status-unchanged", a.GetStatus() == sp.status)
-	assertRI(e, 0, "RI.allowed")
+	assertRI(e, tid(), "RI.allowed")
 	if (op != 1 && op != 3) || err != nil {
-		ab, gerr := e.K.AllowedBidder.Get(e.Ctx, collections.Join(uint64(0), addr(user(1))))
+		ab, gerr := e.K.AllowedBidder.Get(e.Ctx, collections.Join(tid(), addr(user(1))))
 		nd.Assert("C19.allowed-other-entry-unchanged", (gerr == nil) == preListed1)
 		if gerr == nil && preListed1 {
 			nd.Assert("C19.allowed-other-cap-unchanged", ab.MaxBidAmount.Equal(preCap1))
